@@ -59,6 +59,11 @@ func toModel(e ast.Expr) (*em.Node, error) {
 				return &em.Node{Form: formByName("u" + x.Value[:1]), Kids: []*em.Node{{Atom: x.Value[1:]}}}, nil
 			}
 			return &em.Node{Atom: x.Value}, nil
+		case *ast.FloatLiteral:
+			if len(x.Value) > 0 && (x.Value[0] == '-' || x.Value[0] == '+') {
+				return &em.Node{Form: formByName("u" + x.Value[:1]), Kids: []*em.Node{{Atom: x.Value[1:]}}}, nil
+			}
+			return &em.Node{Atom: x.Value}, nil
 		case *ast.CallExpr:
 			if len(x.Func.Idents) == 1 && len(x.Args) == 1 {
 				if a, ok := x.Args[0].(*ast.ExprArg); ok {
@@ -413,7 +418,13 @@ func runC07(ctx *harness.Ctx) {
 	ctx.Leg("exhaustive-trees", func() {
 		var idx int64
 		for k := 0; k <= maxOps; k++ {
-			em.Enumerate(k, func(n *em.Node) bool {
+			allRots := []int{0, 1, 2, 3, 4, 5, 6}
+			em.EnumerateRot(k, func(shape int64) []int {
+				if k <= 2 {
+					return allRots // every leaf position sees every atom kind
+				}
+				return []int{int(shape % 7)}
+			}, func(n *em.Node) bool {
 				idx++
 				if idx%int64(ctx.Of) != int64(ctx.Shard) {
 					return true
